@@ -10,7 +10,7 @@ one() {
   spec="$1"; m=${spec%%:*}; ids=${spec##*:}
   W=/tmp/mut/$m; rm -rf "$W"; mkdir -p "$W"
   git -C /repo worktree add -q --detach "$W/repo" HEAD 2>/dev/null || { echo "$m worktree-failed" >> "$LOG"; return; }
-  if ! git -C "$W/repo" apply /verif/seeded/$m/patch.diff 2>/dev/null; then echo "$m patch-does-not-apply" >> "$LOG"; git -C /repo worktree remove --force "$W/repo"; rm -rf "$W"; return; fi
+  if ! git -C "$W/repo" apply ${BASE:-/verif/seeded}/$m/patch.diff 2>/dev/null; then echo "$m patch-does-not-apply" >> "$LOG"; git -C /repo worktree remove --force "$W/repo"; rm -rf "$W"; return; fi
   rsync -a --exclude .git --exclude 'fuzz/target' --exclude replays --exclude seeded /verif/ "$W/verif/"
   sed -i "s#path = \"/repo\"#path = \"$W/repo\"#" "$W/verif/harness/Cargo.toml" "$W/verif/fuzz/Cargo.toml"
   for id in ${ids//,/ }; do
